@@ -248,7 +248,7 @@ func init() {
 		ID: "C03", Level: "exploration",
 		Rule: "child-axis steps whose first predicate is positional ([n], position() op n in both operand orders, position() op last(), last(), last()-n), alone, after 18 kinds of prefix, and followed by one or two boolean predicates, plus prefixed / unprefixed name tests over siblings sharing a local name under different prefixes, plus (F)[n] for flat paths and single descendant steps F, are evaluated on every document of a multi-parent universe (fan-out differs between sibling parents) and of T(<=N) from every context node and compared as node sets with the reference (proximity position per parent; document order for (F)[n]); non-trivial = the positional predicate keeps a strict non-empty subset of the step's candidates; distinct = distinct expressions with a non-trivial case",
 		Assumptions:    []string{"hand-written reference evaluator", "lawful NodeNavigator", "bounded trees"},
-		Budget:         budget(90*time.Second, 30*time.Minute),
+		Budget:         budget(240*time.Second, 30*time.Minute),
 		MinRefOutcomes: 2,
 		Spaces:         c03Spaces,
 	})
